@@ -82,7 +82,8 @@ class LineMonitor:
         if s is None:
             return
         plan = s.preempt_plan
-        if plan is None:
+        targets = s.preempt_targets
+        if plan is None and targets is None:
             return
         cur = s.current
         if cur is None or cur.thread.ident != _thread.get_ident() or cur.notrace:
@@ -90,7 +91,16 @@ class LineMonitor:
         s.line_events += 1
         if s.keep_log:
             s.line_log.append((code.co_name, lineno))
-        if s.line_events in plan:
+        hit = plan is not None and s.line_events in plan
+        if targets is not None:
+            st = targets.get(code.co_name)
+            if st is not None:
+                c = s.site_counts.get(code.co_name, 0) + 1
+                s.site_counts[code.co_name] = c
+                if c in st:
+                    hit = True
+                    s.probe("preempt-targeted")
+        if hit:
             s.probe("preempt-fired")
             s.preempt_sites.append(f"{code.co_name}:{lineno}")
             s.switch("preempt", f"{code.co_name}:{lineno}", force_other=True)
